@@ -1274,3 +1274,81 @@ def cond_atoms(f, cond, pol=True, canon=True, all_locals=False):
         out.append((render(c).replace(" ", ""), p))
     add(expand_locals(f, cond, 0, all_locals), pol)
     return out
+
+
+def loop_shape(f, loop):
+    """Counting loops independent of their spelling.  Returns dict(var=declId, name=..., dir='up'|'down', bound=node,
+    start=node|None ('continues' when the variable is neither declared nor assigned before the loop in its block),
+    rel='<'|'!='|'<='|'--', stepped=bool) for
+        for (T v = S; v < B; ++v)            while (v < B) { ...; ++v; }          (also != and <=)
+        for (T v = N; v--; )                  while (v-- > 0) / while (v--)        (down from N-1 to 0: bound = N)
+    or None if the loop is not of such a form."""
+    if loop is None or loop["k"] not in ("ForStmt", "WhileStmt"):
+        return None
+    ks = loop.get("c", [])
+    if loop["k"] == "ForStmt":
+        ini, cond, inc = ks[0], ks[2], ks[3]
+    else:
+        ini, cond, inc = None, ks[1] if len(ks) > 1 and ks[0] is None else kids(loop)[0], None
+        cond = kids(loop)[0]
+    cond = strip(cond) if cond is not None else None
+    if cond is None:
+        return None
+    body = [x for x in ks if x is not None][-1]
+
+    def init_in(st, vid):
+        if st is None:
+            return None
+        for n in walk(st):
+            if n["k"] == "VarDecl" and n.get("declId") == vid and kids(n):
+                return kids(n)[0]
+            if n["k"] == "BinaryOperator" and n.get("op") == "=" and strip(kids(n)[0]).get("declId") == vid:
+                return kids(n)[1]
+        return None
+
+    def start_of(vid):
+        s0 = init_in(ini, vid)
+        if s0 is not None:
+            return s0
+        par = f.parent.get(loop["i"])
+        sibs = [x for x in (kids(par) if par is not None else []) if x is not None]
+        idx = next((k_ for k_, x in enumerate(sibs) if x["i"] == loop["i"]), 0)
+        for prev in reversed(sibs[:idx]):
+            if prev["k"] in ("ForStmt", "WhileStmt", "DoStmt", "CXXForRangeStmt"):
+                if any(x["k"] == "DeclRefExpr" and x.get("declId") == vid for x in walk(prev)):
+                    return None                   # continues after an earlier loop over the same variable
+                continue
+            s0 = init_in(prev, vid)
+            if s0 is not None:
+                return s0
+        return None
+    # down-counting: the condition itself decrements
+    dec = cond
+    if dec["k"] == "BinaryOperator" and dec.get("op") in (">", "!=") and cv(kids(dec)[1]) == 0:
+        dec = strip(kids(dec)[0])
+    if dec["k"] == "UnaryOperator" and dec.get("op") == "--" and dec.get("postfix"):
+        v = strip(kids(dec)[0])
+        if v["k"] == "DeclRefExpr":
+            vid = v.get("declId")
+            other = [n for n in walk(body) if n["k"] in ("UnaryOperator", "BinaryOperator", "CompoundAssignOperator") and
+                     (n.get("op") in ("++", "--", "=") or n["k"] == "CompoundAssignOperator") and strip(kids(n)[0]).get("declId") == vid]
+            return dict(var=vid, name=v.get("name"), dir="down", bound=start_of(vid), start=None, rel="--", stepped=not other and inc is None)
+        return None
+    if cond["k"] != "BinaryOperator" or cond.get("op") not in ("<", "!=", "<="):
+        return None
+    v = strip(kids(cond)[0])
+    if v["k"] != "DeclRefExpr":
+        return None
+    vid = v.get("declId")
+    incs = [n for n in walk(loop) if (n["k"] == "UnaryOperator" and n.get("op") == "++" and strip(kids(n)[0]).get("declId") == vid) or
+            (n["k"] == "CompoundAssignOperator" and n.get("op") == "+=" and strip(kids(n)[0]).get("declId") == vid and cv(kids(n)[1]) == 1)]
+    writes = [n for n in walk(body) if n["k"] == "BinaryOperator" and n.get("op") == "=" and strip(kids(n)[0]).get("declId") == vid]
+    nested = False
+    if len(incs) == 1:
+        for a in f.ancestors(incs[0]):
+            if a["i"] == loop["i"]:
+                break
+            if a["k"] in ("IfStmt", "SwitchStmt", "ForStmt", "WhileStmt", "DoStmt", "CXXForRangeStmt", "ConditionalOperator"):
+                nested = True
+    return dict(var=vid, name=v.get("name"), dir="up", bound=kids(cond)[1], start=start_of(vid), rel=cond["op"],
+                stepped=len(incs) == 1 and not writes and not nested)
